@@ -54,7 +54,12 @@ pub const LINKS: &[(&str, &str)] = &[
     ("reg-long", "[some text](d/3)"),
 ];
 
-pub const HOSTS: &[&str] = &["para", "item", "heading", "nested-item", "quote", "block-ref", "quoted-item", "quoted-block-ref", "quoted-heading"];
+pub const HOSTS: &[&str] = &[
+    "para", "item", "heading", "nested-item", "quote", "block-ref", "quoted-item", "quoted-block-ref", "quoted-heading",
+    // the link on the middle line of a block that spans three lines (soft breaks): positions on the
+    // other lines share the link's columns
+    "wrapped-para", "wrapped-item", "wrapped-quote",
+];
 
 fn host_wrap(host: &str, s: &str) -> String {
     match host {
@@ -67,6 +72,9 @@ fn host_wrap(host: &str, s: &str) -> String {
         "quoted-item" => format!("> - first\n> - {} tail\n> - last\n", s),
         "quoted-block-ref" => format!("> before\n>\n> {}\n>\n> after\n", s),
         "quoted-heading" => format!("> # {} tail\n>\n> text\n", s),
+        "wrapped-para" => format!("lead words that are long enough to pass the link\n{} tail\nmore words that are long enough to pass the link\n", s),
+        "wrapped-item" => format!("- lead words that are long enough to pass the link\n  {} tail\n  more words that are long enough to pass the link\n", s),
+        "wrapped-quote" => format!("> lead words that are long enough to pass the link\n> {} tail\n> more words that are long enough to pass the link\n", s),
         _ => unreachable!(),
     }
 }
@@ -174,7 +182,7 @@ impl Engine for C13 {
         "C13"
     }
     fn rule(&self) -> String {
-        "documents = (lines before: none / LF / CRLF / non-ASCII / front-matter / CRLF list / heading) x (text before the link on its line: none / ASCII / 2-byte / astral / tab / emphasised non-ASCII) x 7 link forms x 6 hosts, optionally with CRLF endings throughout; for every (line, UTF-16 character) of the note and two lines past its end: go-to-definition, prepareRename and rename must act iff the position is inside the link's source span (position == end of span is a don't-care), the prepareRename range must be the destination's span, every symbol line must be the heading's real line, and section/list code actions must be offered exactly on heading lines / on lines of lists. non-trivial = the document contains CRLF or non-ASCII text before the link".into()
+        "documents = (lines before: none / LF / CRLF / non-ASCII / front-matter / CRLF list / heading) x (text before the link on its line: none / ASCII / 2-byte / astral / tab / emphasised non-ASCII) x 7 link forms x 12 hosts (single-line blocks, quoted ones, and three-line blocks with the link on the middle line), optionally with CRLF endings throughout; for every (line, UTF-16 character) of the note and two lines past its end: go-to-definition, prepareRename and rename must act iff the position is inside the link's source span (position == end of span is a don't-care), the prepareRename range must be the destination's span, every symbol line must be the heading's real line, and section/list code actions must be offered exactly on heading lines / on lines of lists. non-trivial = the document contains CRLF or non-ASCII text before the link".into()
     }
     fn bound(&self, tier: Tier) -> String {
         match tier {
